@@ -96,6 +96,18 @@ pub mod reqwest {
         }
         }
     }
+    // reqwest::Url (the `url` crate): a parsed URL and its host, as functions of the text
+    pub struct Url { pub text: Ghost<Seq<char>> }
+    pub struct UrlParseError { pub x: u8 }
+    pub uninterp spec fn url_host(u: Seq<char>) -> Option<Seq<char>>;
+    impl Url {
+        #[verifier::external_body]
+        pub fn parse(s: &str) -> (r: std::result::Result<Url, UrlParseError>) ensures r matches Ok(u) ==> u.text@ == s@ { unimplemented!() }
+        #[verifier::external_body]
+        pub fn host_str(&self) -> (r: Option<&str>) ensures match r { Some(h) => url_host(self.text@) == Some(h@), None => url_host(self.text@) is None } { unimplemented!() }
+        #[verifier::external_body]
+        pub fn as_str(&self) -> (r: &str) ensures r@ == self.text@ { unimplemented!() }
+    }
     pub struct ClientBuilder { pub roots: Ghost<Set<Seq<u8>>>, pub insecure: Ghost<bool> }
     impl ClientBuilder {
         #[verifier::external_body]
